@@ -42,6 +42,7 @@ def run(ck, ctx):
                      "before the last file (a write reported durable lives in *some* file: a recovery that gives up at a damaged "
                      "neighbour loses it) - shared with C10 R10.1 / R10.3")
     from . import c10 as _c10t
+    ck.rule("R09.12", _c10t.JUDGE_TEXT + " (shared with C10 R10.11)")
     ck.rule("R09.11", _c10t.NAME_TEXT + " (shared with C10 R10.10: an fsynced file that the start-up scan does not recognise is neither replayed nor protected from being re-created)")
     ck.rule("R09.10", "truncation never deletes an fsynced entry that has not been streamed: every WalStore::delete in truncate_before is "
                       "guarded by `not the active file` and by `max over ALL entries of the file <= the streamed mark` (append order is "
@@ -67,6 +68,7 @@ def run(ck, ctx):
         _c10._r103(_Alias(ck, "R10.3", "R09.9"), prog, cfg)
         _c10.r109(ck, prog, cfg, "R09.9")
         _c10.r1010(ck, prog, cfg, "R09.11")
+        _c10.r1011(ck, prog, cfg, "R09.12")
         _c10.file_loop_rule(ck, prog, cfg, "R09.9")
 
 
